@@ -2,6 +2,7 @@ package an
 
 import (
 	"fmt"
+	"go/constant"
 	"go/types"
 	"strings"
 
@@ -488,4 +489,50 @@ func (c *Check) EachReturn(rule, construct string, fn *ssa.Function, okDetail st
 	}
 	c.OK(rule, construct, fn, ex.States, fmt.Sprintf("%s (%d return arrivals, %d states)", okDetail, n, ex.States))
 	return true
+}
+
+// ReturnsWith explores fn with parameters bound to integer constants and calls visit at each Return arrival.
+func (c *Check) ReturnsWith(fn *ssa.Function, bind map[int]int64, visit func(s *State, ret *ssa.Return)) (states int, ok bool) {
+	if fn == nil || len(fn.Blocks) == 0 {
+		return 0, false
+	}
+	init := c.P.NewState(fn)
+	for i, v := range bind {
+		if i < len(fn.Params) {
+			init.Res[fn.Params[i]] = ssa.NewConst(constant.MakeInt64(v), fn.Params[i].Type())
+		}
+	}
+	ex := &Explorer{P: c.P}
+	ex.OnInstr = func(s *State, ins ssa.Instruction) bool {
+		if ret, ok := ins.(*ssa.Return); ok {
+			visit(s, ret)
+		}
+		return true
+	}
+	ex.Run(fn, init)
+	c.Touch(fn)
+	return ex.States, !ex.Truncated
+}
+
+// EnumConsts lists the declared constants of a named integer type in its package, by value.
+func (p *Prog) EnumConsts(pkgRel, typeName string) map[int64]string {
+	tp := p.TPkg(pkgRel)
+	out := map[int64]string{}
+	if tp == nil || tp.Types == nil {
+		return out
+	}
+	tn, _ := tp.Types.Scope().Lookup(typeName).(*types.TypeName)
+	if tn == nil {
+		return out
+	}
+	for _, n := range tp.Types.Scope().Names() {
+		if k, ok := tp.Types.Scope().Lookup(n).(*types.Const); ok && types.Identical(k.Type(), tn.Type()) {
+			if v, ok := constant.Int64Val(k.Val()); ok {
+				if _, dup := out[v]; !dup {
+					out[v] = n
+				}
+			}
+		}
+	}
+	return out
 }
